@@ -26,13 +26,26 @@ Definition store_eqv (a b : store) : bool :=
 
 (** what a history consists of: API operations / start-up, and (scaffolding) turning the store into one an older
     version would have left *)
-Inductive action := AOp (o : op) | ALegacy (hs ps : list N) | AHead (d : digest) | ACorrupt (n : name) | ANoPruneStartup.
+Inductive action := AOp (o : op) | ALegacy (hs ps : list N) | AHead (d : digest) | ACorrupt (n : name) | ANoPruneStartup
+                  | AAbortBlob (d : digest) | AAbortReq.
 (* ACorrupt: (scaffolding) a manifest file is truncated, as a crash between create-truncate and write leaves it;
    ANoPruneStartup: the start-up sequence under OLLAMA_NOPRUNE *)
 (* AHead: HEAD /api/blobs/:digest — GetBlobsPath maps both spellings of a digest to the file sha256-<hex>, hex case kept *)
 
+(* AAbortBlob: POST /api/blobs/:digest whose body ends with a read error (the client went away): when the blob exists
+   the handler answers before it reads the body; otherwise NewLayer has made its temp file, io.Copy fails, the deferred
+   os.Remove takes the temp file away again and the request fails.  Nothing of the bytes received survives the call.
+   AAbortReq: a request whose JSON body is cut off: the handler fails before it touches the store. *)
+Definition blob_aborted (s : store) (d : digest) : run * result :=
+  match bget (dhex d) s with
+  | Some _ => (init s, ROk)
+  | None => (emits (init s) [EAddDebris DTemp; ERmDebris DTemp], RErr)
+  end.
+
 Definition act_run (size_of : N -> N) (s : store) (a : action) : store * result :=
   match a with
+  | AAbortBlob d => let (r, res) := blob_aborted s d in (rs r, res)
+  | AAbortReq => (s, RErr)
   | AOp o => let (r, res) := op_run size_of s o in (rs r, res)
   | ALegacy hs ps => (legacy_move s hs ps, ROk)
   | AHead d => (s, match bget (dhex d) s with Some _ => ROk | None => RNotFound end)
